@@ -1,5 +1,5 @@
 (* The GraphQL specification (October 2021), section 2.9.4 'String Value', transcribed independently of the
-   code model (Str/Unescape.v): the static semantics of StringValue and the algorithm BlockStringValue.
+   code model (Str/Unescape.v): the static semantics of StringValue and the algorithm bs_BlockStringValue.
    Only Base.Chars is imported. *)
 From ApolloVerif Require Import Base.Chars.
 
@@ -16,14 +16,14 @@ From ApolloVerif Require Import Base.Chars.
    EscapedUnicode :: /[0-9A-Fa-f]{4}/        EscapedCharacter :: one of Q \ / b f n r t                    *)
 
 (* value of one hexadecimal digit, by position in the digit lists *)
-Fixpoint index_of (c : N) (l : list N) : option N :=
+Fixpoint bs_index_of (c : N) (l : list N) : option N :=
   match l with
   | [] => None
-  | x :: r => if c =? x then Some 0 else match index_of c r with Some i => Some (i + 1) | None => None end
+  | x :: r => if c =? x then Some 0 else match bs_index_of c r with Some i => Some (i + 1) | None => None end
   end.
-Definition digits_upper : list N := [48; 49; 50; 51; 52; 53; 54; 55; 56; 57; 65; 66; 67; 68; 69; 70].
-Definition digits_lower : list N := [48; 49; 50; 51; 52; 53; 54; 55; 56; 57; 97; 98; 99; 100; 101; 102].
-Definition HexDigitValue (c d : N) : Prop := index_of c digits_upper = Some d \/ index_of c digits_lower = Some d.
+Definition bs_digits_upper : list N := [48; 49; 50; 51; 52; 53; 54; 55; 56; 57; 65; 66; 67; 68; 69; 70].
+Definition bs_digits_lower : list N := [48; 49; 50; 51; 52; 53; 54; 55; 56; 57; 97; 98; 99; 100; 101; 102].
+Definition HexDigitValue (c d : N) : Prop := bs_index_of c bs_digits_upper = Some d \/ bs_index_of c bs_digits_lower = Some d.
 
 Inductive EscapedCharacterValue : N -> N -> Prop :=
 | EC_quote : EscapedCharacterValue 34 34       (* Q  -> U+0022 *)
@@ -52,7 +52,7 @@ Inductive StringChars : str -> str -> Prop :=
 (* ------------------------------------------------------------------------------------------------
    StringValue :: QQQ BlockStringCharacter* QQQ
      'Let rawValue be the Unicode character sequence of all BlockStringCharacter Unicode character values
-      (which may be an empty sequence).  Return the result of BlockStringValue(rawValue).'
+      (which may be an empty sequence).  Return the result of bs_BlockStringValue(rawValue).'
    BlockStringCharacter ::
      SourceCharacter but not QQQ or \QQQ     -> the character value of SourceCharacter
      \QQQ                                    -> the character sequence QQQ
@@ -74,40 +74,40 @@ Inductive BlockChars (ctx : str) : str -> str -> Prop :=
 Definition BlockRawValue (body raw : str) : Prop := BlockChars [34; 34; 34] body raw.
 
 (* ------------------------------------------------------------------------------------------------
-   BlockStringValue(rawValue)                                                                        *)
+   bs_BlockStringValue(rawValue)                                                                        *)
 
 (* LineTerminator :: New Line (U+000A) | Carriage Return (U+000D) [lookahead != New Line] | CR LF
    WhiteSpace :: Horizontal Tab (U+0009) | Space (U+0020)                                            *)
-Definition WhiteSpaceb (c : N) : bool := (c =? 9) || (c =? 32).
+Definition bs_WhiteSpaceb (c : N) : bool := (c =? 9) || (c =? 32).
 
 (* 1. Let lines be the result of splitting rawValue by LineTerminator.
    `cur` is the line being accumulated. *)
-Fixpoint lines_from (cur : str) (s : str) : list str :=
+Fixpoint bs_lines_from (cur : str) (s : str) : list str :=
   match s with
   | [] => [cur]
   | c :: r =>
       if c =? 13 then
         match r with
-        | c2 :: r2 => if c2 =? 10 then cur :: lines_from [] r2 else cur :: lines_from [] r
-        | [] => cur :: lines_from [] r
+        | c2 :: r2 => if c2 =? 10 then cur :: bs_lines_from [] r2 else cur :: bs_lines_from [] r
+        | [] => cur :: bs_lines_from [] r
         end
-      else if c =? 10 then cur :: lines_from [] r
-      else lines_from (cur ++ [c]) r
+      else if c =? 10 then cur :: bs_lines_from [] r
+      else bs_lines_from (cur ++ [c]) r
   end.
-Definition split_by_line_terminator (raw : str) : list str := lines_from [] raw.
+Definition bs_split_by_line_terminator (raw : str) : list str := bs_lines_from [] raw.
 
 (* 3.b 'the number of characters in line', 3.c 'the number of leading consecutive WhiteSpace characters' *)
-Definition line_length (line : str) : N := N.of_nat (length line).
-Fixpoint leading_ws (line : str) : N :=
+Definition bs_line_length (line : str) : N := N.of_nat (length line).
+Fixpoint bs_leading_ws (line : str) : N :=
   match line with
-  | c :: r => if WhiteSpaceb c then leading_ws r + 1 else 0
+  | c :: r => if bs_WhiteSpaceb c then bs_leading_ws r + 1 else 0
   | [] => 0
   end.
 
 (* 2./3. commonIndent: null = None.  The fold is over the lines after the first (3.a). *)
-Definition common_indent_step (commonIndent : option N) (line : str) : option N :=
-  let length := line_length line in
-  let indent := leading_ws line in
+Definition bs_common_indent_step (commonIndent : option N) (line : str) : option N :=
+  let length := bs_line_length line in
+  let indent := bs_leading_ws line in
   if indent <? length then                                      (* 3.d *)
     match commonIndent with
     | None => Some indent                                       (* 3.d.i  commonIndent is null *)
@@ -116,43 +116,43 @@ Definition common_indent_step (commonIndent : option N) (line : str) : option N 
   else commonIndent.
 
 (* 4.a.ii 'Remove commonIndent characters from the beginning of line' *)
-Fixpoint remove_chars (n : nat) (line : str) : str :=
+Fixpoint bs_remove_chars (n : nat) (line : str) : str :=
   match n, line with
-  | S k, _ :: r => remove_chars k r
+  | S k, _ :: r => bs_remove_chars k r
   | _, _ => line
   end.
 
-Definition contains_only_ws (line : str) : bool := forallb WhiteSpaceb line.
+Definition bs_contains_only_ws (line : str) : bool := forallb bs_WhiteSpaceb line.
 
 (* 5. 'While the first item line in lines contains only WhiteSpace: remove the first item from lines' *)
-Fixpoint remove_leading_blank (lines : list str) : list str :=
+Fixpoint bs_remove_leading_blank (lines : list str) : list str :=
   match lines with
-  | l :: r => if contains_only_ws l then remove_leading_blank r else lines
+  | l :: r => if bs_contains_only_ws l then bs_remove_leading_blank r else lines
   | [] => []
   end.
 (* 6. the same for the last item *)
-Definition remove_trailing_blank (lines : list str) : list str := rev (remove_leading_blank (rev lines)).
+Definition bs_remove_trailing_blank (lines : list str) : list str := rev (bs_remove_leading_blank (rev lines)).
 
 (* 7./8. formatted: the first line, then for every other line a line feed and the line *)
-Fixpoint join_lf (lines : list str) : str :=
+Fixpoint bs_join_lf (lines : list str) : str :=
   match lines with
   | [] => []
   | [l] => l
-  | l :: r => l ++ [10] ++ join_lf r
+  | l :: r => l ++ [10] ++ bs_join_lf r
   end.
 
-Definition BlockStringValue (rawValue : str) : str :=
-  let lines := split_by_line_terminator rawValue in                                   (* 1 *)
-  let commonIndent := fold_left common_indent_step (tl lines) None in                (* 2, 3 *)
+Definition bs_BlockStringValue (rawValue : str) : str :=
+  let lines := bs_split_by_line_terminator rawValue in                                   (* 1 *)
+  let commonIndent := fold_left bs_common_indent_step (tl lines) None in                (* 2, 3 *)
   let lines :=
     match commonIndent with                                                            (* 4 *)
     | Some ci =>
         match lines with
-        | first :: rest => first :: map (remove_chars (N.to_nat ci)) rest
+        | first :: rest => first :: map (bs_remove_chars (N.to_nat ci)) rest
         | [] => []
         end
     | None => lines
     end in
-  let lines := remove_leading_blank lines in                                           (* 5 *)
-  let lines := remove_trailing_blank lines in                                          (* 6 *)
-  join_lf lines.                                                                       (* 7, 8, 9 *)
+  let lines := bs_remove_leading_blank lines in                                           (* 5 *)
+  let lines := bs_remove_trailing_blank lines in                                          (* 6 *)
+  bs_join_lf lines.                                                                       (* 7, 8, 9 *)
